@@ -492,6 +492,88 @@ def bezierDerivative (pts : List V3) (t : Rat) : Option (V3 × V3 × V3) :=
     else
       some (point, curveSum (bezD1Coeff n0 t) 0 pts, curveSum (bezD2Coeff n0 t) 0 pts)
 
+/-! ### `degree_elevation` (The NURBS Book A5.9): the coefficient table and the path of a single Bézier segment -/
+
+/-- first loop nest of A5.9: rows `1 … ph//2`: `bezalfs[i, j] = inv * binom(p, j) * binom(t, i - j)` for
+    `max(0, i - t) <= j <= min(p, i)`, `inv = 1.0 / binom(ph, i)`; the other entries stay `0` (`np.zeros`) -/
+def bezalfsFirst (p t i j : Nat) : Rat :=
+  if i - t ≤ j ∧ j ≤ min p i then (1 / (choose (p + t) i : Rat)) * (choose p j : Rat) * (choose t (i - j) : Rat) else 0
+
+/-- the whole table: `bezalfs[0, 0] = bezalfs[ph, p] = 1.0`, rows `1 … ph//2` computed, rows `ph//2 + 1 … ph - 1` copied
+    by symmetry `bezalfs[i, j] = bezalfs[ph - i, p - j]` (inside the same `j` range) -/
+def bezalfs (p t i j : Nat) : Rat :=
+  let ph := p + t
+  if i = 0 then (if j = 0 then 1 else 0)
+  else if i = ph then (if j = p then 1 else 0)
+  else if i ≤ ph / 2 then bezalfsFirst p t i j
+  else if ph < i then 0
+  else if i - t ≤ j ∧ j ≤ min p i then bezalfsFirst p t (ph - i) (p - j) else 0
+
+/-- `degree_elevation(spline, t)` for a spline that is ONE Bézier segment (`count = order`, clamped knots `ua … ub`): the
+    big loop runs once without knot insertion / removal: `Qw[0] = Pw[0]`, `Qw[i] = ebpts[i] = Σ_j bezalfs[i, j]·bpts[j]`
+    for `i = 1 … ph`, knots `[ua]*(ph+1) + [ub]*(ph+1)` (entries of `bezalfs` outside the inner `j` range are 0) -/
+def elevateBezier (bpts : List V3) (t : Nat) (ua ub : Rat) : List V3 × List Rat :=
+  let p := bpts.length - 1
+  let ph := p + t
+  (bpts.getD 0 V3.zero :: (List.range' 1 ph).map (fun i => curveSum (bezalfs p t i) 0 bpts),
+   List.replicate (ph + 1) ua ++ List.replicate (ph + 1) ub)
+
+/-! ### `BSpline.bezier_decomposition` (The NURBS Book A5.6), non rational clamped splines -/
+
+/-- `while b < m and math.isclose(knots[b + 1], knots[b]): b += 1` (exact comparison: the harness passes exact knots) -/
+def decompAdvance (knots : List Rat) (m : Nat) : Nat → Nat → Nat
+  | 0, b => b
+  | fuel + 1, b => if b < m ∧ kget knots (b + 1) = kget knots b then decompAdvance knots m fuel (b + 1) else b
+
+/-- `for k in range(p, s - 1, -1): bezier_points[k] = bezier_points[k]*alpha + bezier_points[k-1]*(1.0 - alpha)` with
+    `alpha = alphas[k - s]`: descending in place, so every right hand side reads the OLD `bezier_points[k-1]` -/
+def decompInsertOnce (alphas : Nat → Rat) (p s : Nat) (bez : List V3) : List V3 :=
+  (List.range bez.length).map (fun k =>
+    if s ≤ k ∧ k ≤ p then ((bez.getD k V3.zero).scale (alphas (k - s))).add ((bez.getD (k - 1) V3.zero).scale (1 - alphas (k - s)))
+    else bez.getD k V3.zero)
+
+/-- the `for j in range(1, r + 1)` loop: returns the refined segment and `next_bezier_points` (as a function of the index) -/
+def decompInsertLoop (alphas : Nat → Rat) (p mult r : Nat) (more : Bool) :
+    Nat → Nat → List V3 → (Nat → V3) → List V3 × (Nat → V3)
+  | 0, _, bez, nxt => (bez, nxt)
+  | fuel + 1, j, bez, nxt =>
+    let bez' := decompInsertOnce alphas p (mult + j) bez
+    let nxt' := if more then (fun i => if i = r - j then bez'.getD p V3.zero else nxt i) else nxt
+    decompInsertLoop alphas p mult r more fuel (j + 1) bez' nxt'
+
+/-- the `while b < m` loop of A5.6; `fuel` bounds the number of passes (≤ number of knots) -/
+def decompLoop (knots : List Rat) (cps : List V3) (p m : Nat) : Nat → Nat → Nat → List V3 → List (List V3)
+  | 0, _, _, _ => []
+  | fuel + 1, a, b0, bez =>
+    if ¬ b0 < m then []
+    else
+      let b := decompAdvance knots m (m + 1) b0
+      let mult := b - b0 + 1
+      let more := decide (b < m)
+      let numer := kget knots b - kget knots a
+      -- alphas[j - mult - 1] = numer / (knots[a + j] - knots[a]) for j = p … mult + 1
+      let alphas : Nat → Rat := fun idx => numer / (kget knots (a + (idx + mult + 1)) - kget knots a)
+      let res := if mult < p then decompInsertLoop alphas p mult (p - mult) more (p - mult) 1 bez (fun _ => V3.zero)
+                 else (bez, fun _ => V3.zero)
+      if more then
+        let nxt : Nat → V3 := fun i => if p - mult ≤ i ∧ i ≤ p then cps.getD (b - p + i) V3.zero else res.2 i
+        res.1 :: decompLoop knots cps p m fuel b (b + 1) ((List.range (p + 1)).map nxt)
+      else [res.1]
+
+inductive DecompErr where
+  | rational | notClamped
+  deriving DecidableEq, Repr
+
+/-- `BSpline.bezier_decomposition()`: the list of the yielded Bézier segments (`degree + 1` points each) -/
+def bezierDecomposition (knots weights : List Rat) (cps : List V3) (order : Nat) : Except DecompErr (List (List V3)) :=
+  let p := order - 1
+  let clamped := ((knots.take order).all (· = kget knots 0)) && (((knots.drop (knots.length - order)).all (· = knots.getLastD 0)))
+  if ¬ weights.isEmpty then .error .rational
+  else if ¬ clamped then .error .notClamped
+  else
+    let m := cps.length - 1 + p + 1
+    .ok (decompLoop knots cps p m (m + 1) p (p + 1) (cps.take (p + 1)))
+
 /-! ## knot insertion, reversal (`BSpline.insert_knot`, `BSpline.reverse`) -/
 
 inductive InsErr where
@@ -655,6 +737,35 @@ def splitBSplineRational (knots weights : List Rat) (cps : List V3) (order : Nat
         match mkBSplineW (cps'.drop idx) order (List.replicate order t ++ knots'.drop span) (weights'.drop idx) with
         | .error e => .error e
         | .ok s2 => .ok (s1, s2)
+
+/-! ## global interpolation (`unconstrained_global_bspline_interpolation`), parametrisation, averaged knots -/
+
+/-- `parametrize._normalize_distances(distances)`: `[0.0, s_1/total, …, 1.0]`, `[]` for a total length below 1e-12.  The
+    distances themselves (`|q_{k+1} − q_k|` for "chord", its square root for "centripetal") are inputs: square roots
+    stay outside the rational model -/
+def normalizeDistances (ds : List Rat) : List Rat :=
+  let total := ds.sum
+  if (if total < 0 then -total else total) ≤ 1 / 1000000000000 then []
+  else
+    let step := (ds.take (ds.length - 1)).foldl (fun (acc : Rat × List Rat) d => (acc.1 + d, acc.2 ++ [(acc.1 + d) / total])) (0, [0])
+    step.2 ++ [1]
+
+/-- `uniform_t_vector(length)` -/
+def uniformTVector (length : Nat) : List Rat := (List.range length).map (fun (t : Nat) => (t : Rat) / ((length - 1 : Nat) : Rat))
+
+/-- `averaged_knots_unconstrained(n, p, t)`: `[0]*(p+1)`, `sum(t[j:j+p])/p` for `j = 1 … n-p`, `[1]*(p+1)` -/
+def averagedKnotsUnconstrained (n p : Nat) (t : List Rat) : List Rat :=
+  List.replicate (p + 1) 0 ++ (List.range' 1 (n - p)).map (fun j => ((t.drop j).take p).sum / (p : Rat)) ++ List.replicate (p + 1) 1
+
+/-- `unconstrained_global_bspline_interpolation(fit_points, degree, t_vector)` with the linear solver as a PARAMETER
+    (`solve rows rhs` stands for `_get_best_solver(rows, degree).solve_matrix(rhs)`): knots from the parametrisation, one
+    collocation row `Basis.basis_vector(t)` per parameter, control points = the solver's answer -/
+def globalInterpolation (solve : List (List Rat) → List V3 → List V3) (fit : List V3) (p : Nat) (tvec : List Rat) :
+    Option (List V3 × List Rat) :=
+  let knots := averagedKnotsUnconstrained (fit.length - 1) p tvec
+  match tvec.mapM (fun t => basisVector knots [] (p + 1) fit.length t) with
+  | none => none
+  | some rows => some (solve rows fit, knots)
 
 /-! ## bulge (`bulge.py`) -/
 
